@@ -90,7 +90,11 @@ def check_safe_join(ctx, prog, fn_path, floor=True):
                     b.kind == "arg" and b.arg == 1 for b in flow.origins(sj, o.call.args[0]))
                 ctx.ob("C17.L2.base", "%s|returned path starts from the base argument" % fn_path, ok,
                        "the Some(..) payload originates from %r" % o, sj.where(bb))
-    ctx.need(ret_roots or not floor, "C17.L2: no `Some(path)` return found in safe_join")
+    if not ret_roots and floor:
+        ctx.ob("C17.L2.base", "%s|returned path starts from the base argument" % fn_path, False,
+               "%s grows a path but does not return `Some(path)` built from `base.to_path_buf()`: the path that is read is "
+               "not a fresh copy of the base directory extended by guarded segments (a shared or caller-supplied buffer "
+               "can drift away from the base between lookups)" % fn_path.split("::")[-1], sj.loc)
     for c in growers:
         # any other mutator of the path: its components are not the guarded segment
         if c.name != PUSH:
@@ -143,6 +147,18 @@ def check_safe_join(ctx, prog, fn_path, floor=True):
     return n
 
 
+def joiners(prog):
+    """the functions of the loader module that build the path to read: found by what they do (they push onto a
+    PathBuf), not by name"""
+    out = []
+    for f in prog.fns.values():
+        if f.kind != "closure" and f.loc.f.endswith(("minijinja/src/loader.rs", "controls/src/c17.rs")) and f.calls_to(PUSH):
+            out.append(f.path)
+    if SAFE_JOIN in prog.fns and SAFE_JOIN not in out:
+        out.append(SAFE_JOIN)
+    return sorted(out)
+
+
 def check_fs_calls(ctx, prog, allowed_root, floor=True):
     n = 0
     inside = 0
@@ -160,10 +176,19 @@ def check_fs_calls(ctx, prog, allowed_root, floor=True):
                     good = False
                     os_ = flow.origins(f, c.args[0]) if c.args else []
                     for o in os_:
-                        if o.kind == "call" and o.call.name == SAFE_JOIN and "as Some" in o.proj:
+                        if o.kind == "call" and o.call.name in joiners(prog) and "as Some" in o.proj:
                             good = True
                     ctx.ob("C17.L1.path-from-safe_join", "%s|%s" % (f.path, nm), good and len(os_) == 1,
                            "path argument origins: %r" % os_, f.where(c.bb))
+                    # ... and it is used as the join returned it: nothing in the loader takes the path by `&mut`
+                    muts = []
+                    for bb_, i_, st_ in f.all_stmts():
+                        rv_ = st_.get("rv", {})
+                        if rv_.get("k") == "ref" and rv_.get("mut") and "std::path::PathBuf" in f.locals[rv_["place"]["l"]].get("s", ""):
+                            muts.append(f.where(bb_))
+                    ctx.ob("C17.L1.joined-path-is-not-modified", "%s|%s" % (f.path, nm), not muts,
+                           "the loader borrows the joined path mutably (%s): components can be added or removed after the "
+                           "per-segment guard ran" % muts[:3], f.where(c.bb))
     if floor:
         ctx.floor("C17.L1 fs call sites inside the loader", inside, 1)
     return n
@@ -224,7 +249,12 @@ def run(ctx):
     for cfgname in ctx.configs():
         prog = ctx.program(cfgname)
         check_fs_calls(ctx, prog, PATH_LOADER)
-        check_safe_join(ctx, prog, SAFE_JOIN)
+        js = [j for j in joiners(prog) if j.startswith("minijinja::")]
+        ctx.ob("C17.L2.path-is-built-by-a-guarded-join", "loader", bool(js),
+               "no function of the loader module builds the path segment by segment (PathBuf::push): the template name "
+               "reaches the file system without the per-segment guard", "")
+        for j in js:
+            check_safe_join(ctx, prog, j)
         check_notfound(ctx, prog)
         ctx.count("configs")
     # positive controls: each zero-count rule must fire on /verif/controls
